@@ -14,9 +14,15 @@ RULE = ("kinds: gen (SampleSegregating incl. several samples at / below the size
         "on /repo); each clause of the property evaluated directly on the real output.  Non-trivial: at least one unobserved experiment.")
 THEOREMS = {
     "C13_sample_segregating_shape": "repaired logic (fixed=true), every permutation answer a permutation of the sample's indices: every unobserved output plate holds one sample and at most max experiments",
+    "C13_sample_segregating_even": "repaired logic (fixed=true), permutation contract: any two unobserved output plates holding experiments of the same sample differ in size by at most one (the plates of a sample are the np.array_split chunks)",
     "C13_sample_segregating_shape_refuted": "code as found (fixed=false): witness A,A,B,B,B with max 3 gives one plate '' of 5 > 3 experiments holding 2 samples",
     "C13_pairwise_single_sample": "Pairwise, every accepted oracle answer: every unobserved output plate holds one sample",
+    "C13_pairwise_singles_join_combo_plates": "Pairwise, every accepted oracle answer: every unobserved output row (single-agent ones included) sits on a plate generated_plate_k that holds a combination row of the row's own sample - single-agent experiments never open a plate of their own nor join another sample's plate",
     "C13_sparse_cover_covers": "SparseCover: every sample and every treatment id of the screen occurs in an observed output row; observed rows are labelled initial_plate, all others one common label; experiments otherwise unchanged",
+    "C13_sparse_cover_loop_progress": "SparseCover, every state: while treatment ids remain the array offered by the while loop is not empty, whichever of its elements rng.choice answers the number of distinct remaining ids (control sentinel included) strictly drops, and the per-sample arrays are never empty",
+    "C13_sparse_cover_iterations": "SparseCover, whenever it returns: exactly one answer per sample, then at most as many while-loop iterations as there are distinct treatment ids left uncovered by the per-sample phase (<= distinct ids of the screen); unused answers are handed back",
+    "C13_sparse_cover_terminates": "SparseCover returns (never runs out of answers, never offers an empty array, final Screen accepted) for every fully observed screen and every answer stream that obeys the choice contract answer by answer and holds #samples + #distinct treatment ids answers",
+    "C13_sparse_cover_consumes": "SparseCover, whenever it returns: the consumed answers are a prefix of the stream of length between #samples and #samples + #distinct treatment ids",
     "C13_combo_filter_exact": "combination filter keeps exactly (order and multiplicity included) the rows all of whose non-control treatments occur in a row without control",
     "C13_fixed_size_common": "FixedSize, choice contract: every unobserved output plate has exactly plate_size experiments",
     "C13_optimal_size_common": "OptimalSize, choice contract: every unobserved output plate has exactly optimal_size experiments",
@@ -35,11 +41,18 @@ ASSUMPTIONS = [
     "see C11 for the reductions shared with it (constructor = plate-uniform check, ids = ranks of names, integer ceil / floor)",
 ]
 EXPLANATION = ("Models shared with C11 (Model/Retro.v, Pairwise.v, RetroInit.v); every clause of the property has a theorem, none is "
-               "partial.  Two clauses are false of the code as found and are kept visible as _refuted theorems (vm_compute witnesses, "
+               "partial; beyond the property text: the plates of one sample made by SampleSegregating differ in size by at most one, "
+               "and Pairwise puts every single-agent experiment on a generated plate holding a combination experiment of its own "
+               "sample (C13_pairwise_single_sample already covers the whole output, single-agent rows included).  Two clauses are false of the code as found and are kept visible as _refuted theorems (vm_compute witnesses, "
                "replayed on the real code by the first generated cases); the positive theorems are about the repaired logic selected by "
                "the model parameter `fixed`, and the correspondence runs whichever variant /repo contains (decided by replaying the "
                "canonical witnesses; reported as the extra check `variant-detected`).  The SparseCover while loop recurses on the "
-               "recorded answers, so no fuel is needed in the model; a bound on the number of iterations is not stated as a theorem.  "
+               "recorded answers, so no fuel is needed in the model; its termination is a theorem: every iteration strictly shrinks the "
+               "set of remaining treatment ids (the control sentinel -1 is an id like any other: rows holding it are offered and "
+               "choosing one covers it), so the loop runs at most #distinct-uncovered-ids times and the function consumes at most "
+               "#samples + #distinct-ids answers; with that many contract-obeying answers the model returns Ok (the real code was "
+               "probed on the empty screen, all-control screens and screens whose only control entry is in an unchosen row: it "
+               "returns on all of them); the harness checks the same bound on the recorded number of rng.choice calls.  "
                "heapq is modelled by its contract (heappop answers are oracle inputs checked to be smallest), not by its array layout.")
 
 SIGNATURES = ("sample-segregating-lumps-small-samples", "nplate-stale-sample-ids")
@@ -78,11 +91,44 @@ def gen(rng, tier):
         yield dict(kind="filter", screen=L.gen_screen(rng), seed=0)
 
 
+def pred_more(desc, ex):
+    """clauses evaluated on the real run beyond retrolib.pred_shape (termination bound of SparseCover, even split of
+    SampleSegregating, single-agent assignment of Pairwise)"""
+    inp, out, k = ex["inp"], ex["impl"], desc["kind"]
+    if k == "gen" and desc["cls"] == "ss":
+        by = {}
+        for p, rs in L.plates_of(out).items():
+            for sn in {L.sname(r) for r in rs}:
+                by.setdefault(sn, []).append(len(rs))
+        for sn, szs in by.items():
+            if max(szs) - min(szs) > 1:
+                return "sample-segregating-uneven-split: sample %r has plates of sizes %r" % (common.l2s(sn), sorted(szs))
+    if k == "gen" and desc["cls"] == "pairwise":
+        ctrl = desc["screen"]["ctrl"]
+        homes = {(tuple(r[1]), L.sname(r)) for r in L.unobs(out) if None not in L.tids(r, ctrl)}
+        for r in L.unobs(out):
+            if (tuple(r[1]), L.sname(r)) not in homes or not common.l2s(r[1]).startswith("generated_plate_"):
+                return "pairwise-row-without-combo-plate: plate %r holds no combination experiment of sample %r" % (common.l2s(r[1]), common.l2s(r[0]))
+    if k == "sparse":
+        ctrl = desc["screen"]["ctrl"]
+        picks = [d[1] for d in ex["rec"].draws]
+        if any(d[0] != 0 or len(d[1]) != 1 for d in ex["rec"].draws):
+            return "sparse-cover-choice-shape: a choice call did not answer one index"
+        n_s = len({L.sname(r) for r in inp})
+        if len(picks) < n_s:
+            return "sparse-cover-iterations: %d choice calls for %d samples" % (len(picks), n_s)
+        need = {t for r in inp for t in L.tids(r, ctrl)}
+        covered = {t for p in picks[:n_s] for t in L.tids(inp[p[0]], ctrl)}
+        if len(picks) - n_s > len(need - covered):
+            return "sparse-cover-iterations: %d while-loop iterations for %d uncovered treatment ids" % (len(picks) - n_s, len(need - covered))
+    return None
+
+
 def run(desc):
     ex = L.execute(desc)
     pred = None
     if not isinstance(ex["impl"], ImplError) and ex["inp"] is not None:
-        pred = L.pred_shape(desc, ex["inp"], ex["impl"])
+        pred = L.pred_shape(desc, ex["inp"], ex["impl"]) or pred_more(desc, ex)
     feats = L.features(desc, ex)
     if desc["kind"] == "gen" and desc["cls"] == "ss":
         per = Counter(r["s"] for r in desc["screen"]["rows"] if not r["m"])
